@@ -22,7 +22,7 @@ PY = {'gt': lambda a, b: a > b, 'ge': lambda a, b: a >= b, 'eq': lambda a, b: a 
 
 def floors(tier):
     return {'cases': 500, 'early_stops': 250, 'full_length_runs': 60, 'stops_gt': 25, 'stops_ge': 25, 'stops_eq': 10, 'stops_lt': 25, 'stops_le': 25,
-            'continued_cases': 60, 'two_stage_cases': 40, 'sensor_reads_checked': 5000, 'set:nontrivial': 60, 'set:sensor_op_placement': 45}
+            'continued_cases': 60, 'two_stage_cases': 40, 'same_condition_object_reused': 15, 'sensor_reads_checked': 5000, 'set:nontrivial': 60, 'set:sensor_op_placement': 45}
 
 
 def n_cases(tier):
@@ -85,6 +85,9 @@ def two_stage(ctx, i):
     fa = rng.uniform(0.1, 0.6)
     fb = rng.choice([rng.uniform(0.05, 0.95), 1.6, -0.6])
     A, Bq = thr_at(fa if op in ('gt', 'ge') else 1 - fa), thr_at(fb if op in ('gt', 'ge') else 1 - fb)
+    same_object = rng.random() < 0.4
+    if same_object:
+        Bq = A          # the very same StopCondition object is passed to both runs
     sa = truth_states(ser, raw, A, op, KIND[sk])
     k1 = next((k for k in range(1, N) if sa[k] != 'F'), None)
     if k1 is None or sa[k1] != 'T' or not (1 <= k1 <= N - 4):
@@ -103,6 +106,10 @@ def two_stage(ctx, i):
     sp = copy.deepcopy(spec)
     sp['schedule'] = [{'op': 'run', 'dt': dt, 'T': GEN.mulq(dt, n), 'stop_spec': {'sensor': sk, 'elem': idx, 'op': op, 'thr': A}},
                       {'op': 'run', 'dt': dt, 'T': GEN.mulq(dt, N - 1 - k1), 'stop_spec': {'sensor': sk, 'elem': idx, 'op': op, 'thr': Bq}}]
+    if same_object:
+        sp['stop'] = {'sensor': sk, 'elem': idx, 'op': op, 'thr': A}
+        sp['schedule'] = [{'op': 'run', 'dt': dt, 'T': GEN.mulq(dt, n)}, {'op': 'run', 'dt': dt, 'T': GEN.mulq(dt, N - 1 - k1)}]
+        ctx.count('same_condition_object_reused')
     try:
         b1, r1, t1 = execute(sp)
     except Exception as ex:
@@ -114,7 +121,7 @@ def two_stage(ctx, i):
     ctx.count('cases')
     ctx.count('evaluations')
     ctx.count('two_stage_cases')
-    wit = {'stop_A': sp['schedule'][0]['stop_spec'], 'stop_B': sp['schedule'][1]['stop_spec'], 'baseline_instants': N, 'first_true_A': k1,
+    wit = {'stop_A': {'sensor': sk, 'elem': idx, 'op': op, 'thr': A}, 'stop_B': {'sensor': sk, 'elem': idx, 'op': op, 'thr': Bq}, 'same_object': same_object, 'baseline_instants': N, 'first_true_A': k1,
            'run1_instants': r1[0]['n1'], 'total_instants': t1.n, 'acceptable_last_indices_B': acceptable[:6]}
     if r1[0]['n1'] != k1 + 1:
         ctx.violation('C16:wrong-stop-instant', wit, case)
